@@ -84,7 +84,8 @@ func (u *Unit) call(st *State, x *ast.CallExpr) *Val {
 		}
 	}
 	if recvExpr != nil && fn != nil {
-		if k := kindOf(u.typeOf(recvExpr)); k == kAtomic || namedPath(types.Unalias(u.typeOf(recvExpr))) == "sync/atomic.Bool" {
+		_, _, isXMap := xsyncMapTypes(u.typeOf(recvExpr))
+		if k := kindOf(u.typeOf(recvExpr)); k == kAtomic || isXMap || namedPath(types.Unalias(u.typeOf(recvExpr))) == "sync/atomic.Bool" {
 			u.inAtomic++
 			recv = u.eval(st, recvExpr)
 			u.inAtomic--
@@ -272,7 +273,7 @@ var purePrefixes = []string{
 	"(error).", "net/http.StatusText", "net/http.NewRequestWithContext", "net/http.NewRequest", "(io.Closer).Close", "(io.ReadCloser).Close", "(*strings.Builder).", "regexp.", "(*regexp.Regexp).", "os.Getenv", "encoding/json.Marshal", "encoding/json.Valid",
 	"(*github.com/thushan/olla/internal/adapter/stats.", "github.com/thushan/olla/internal/util.", "github.com/thushan/olla/internal/version.", "(reflect.", "reflect.",
 	"(*github.com/json-iterator/go.", "github.com/json-iterator/go.", "github.com/tidwall/gjson.", "(github.com/tidwall/gjson.Result).",
-	"(*sync.WaitGroup).", "(*sync.Pool).", "(*net/http.Request).Context", "(*net/http.Request).WithContext", "(*net/http.Request).UserAgent", "github.com/thushan/olla/internal/app/middleware.GetLogger", "github.com/thushan/olla/internal/app/middleware.GetRequestID", "github.com/thushan/olla/internal/app/middleware.FormatBytes", "(*github.com/thushan/olla/pkg/pool.Pool).", "runtime.", "(*time.Timer).", "(*time.Ticker).", "io.", "(*bytes.Buffer).", "(*bytes.Reader).",
+	"(*sync.WaitGroup).", "(*sync.Pool).", "(*net/http.Request).Context", "(*net/http.Request).WithContext", "(*net/http.Request).UserAgent", "github.com/thushan/olla/internal/app/middleware.GetLogger", "github.com/thushan/olla/internal/app/middleware.GetRequestID", "github.com/thushan/olla/internal/app/middleware.FormatBytes", "(*github.com/thushan/olla/pkg/pool.Pool).", "(*golang.org/x/time/rate.Reservation).OK", "(*golang.org/x/time/rate.Reservation).Delay", "golang.org/x/time/rate.NewLimiter", "runtime.", "(*time.Timer).", "(*time.Ticker).", "io.", "(*bytes.Buffer).", "(*bytes.Reader).",
 }
 
 func (u *Unit) isPure(fn *types.Func) bool {
@@ -292,7 +293,7 @@ func (u *Unit) isPure(fn *types.Func) bool {
 	return false
 }
 
-var functionalPrefixes = []string{"(*net/url.URL).String", "strings.", "strconv.", "(net.Error).", "(error).Error", "unicode.", "math.", "path.", "net/http.StatusText", "net/url.PathUnescape", "net/url.QueryUnescape", "(time.Duration).", "path/filepath."}
+var functionalPrefixes = []string{"net.SplitHostPort", "(*golang.org/x/time/rate.Reservation).OK", "(*golang.org/x/time/rate.Reservation).Delay", "(*net/url.URL).String", "strings.", "strconv.", "(net.Error).", "(error).Error", "unicode.", "math.", "path.", "net/http.StatusText", "net/url.PathUnescape", "net/url.QueryUnescape", "(time.Duration).", "path/filepath."}
 
 // pureFunctional: deterministic library functions become uninterpreted functions of their scalar arguments.
 func (u *Unit) pureFunctional(st *State, fn *types.Func, recv *Val, args []*Val, resT types.Type) *Val {
@@ -826,7 +827,8 @@ func (u *Unit) applyContract(st *State, ct *Contract, sig *types.Signature, recv
 	}
 	st.trace = append(st.trace, fmt.Sprintf("%s call %s (contract)", u.pos(x), short))
 	// vacuity guard: the callee's postcondition must be consistent with what is known at this call site
-	u.cover(st, fmt.Sprintf("call(%s).post-consistent@call.%d", short, n), "assumed postcondition of "+short+" is satisfiable here")
+	// (a call site that is unreachable anyway -- pre-state already contradictory -- is dead code, not vacuity)
+	u.coverWithPre(st, pre, fmt.Sprintf("call(%s).post-consistent@call.%d", short, n), "assumed postcondition of "+short+" is satisfiable here")
 	return rv
 }
 
